@@ -249,6 +249,8 @@ def st_case(names, toy):
         dd = bs[di % len(bs)] if di >= 0 else 1 + u1 % (n - 1)
         k = bs[ki % len(bs)] if ki >= 0 else 1 + u2 % (n - 1)
         baselen = SU.olen(n)
+        if u2 % 5 == 0:
+            hname = gen.exact_hash_name(n)        # hash output exactly as long as the order (in octets)
         if entry in ("sign_digest", "sign_digest_deterministic"):
             if not payload:
                 payload = b"\x01"
@@ -288,8 +290,10 @@ def sweep_cases(names, full):
     for ci, cname in enumerate(names):
         n = gen.dom(cname).n
         bs = gen.boundary_scalars(n)
-        for j, (hname, encname, entry) in enumerate(combos):
-            if not full and (j + 7 * ci) % 11:
+        # a hash whose output is exactly as long as this curve's order, through every entry point
+        exact = [(gen.exact_hash_name(n), SU.ENC_NAMES[(ci + e) % len(SU.ENC_NAMES)], entry) for e, entry in enumerate(ENTRIES)]
+        for j, (hname, encname, entry) in enumerate(exact + combos):
+            if not full and (j + 7 * ci) % 11 and j >= len(exact):
                 continue
             dd = bs[(j * 3 + ci) % len(bs)]
             k = bs[(j * 5 + 2 * ci + 1) % len(bs)]
